@@ -258,6 +258,14 @@ def _offsets(t):
         if x[0] == "index":
             out.append(idx_desc(x[2]))
             return
+        if x[0] == "call" and x[1].endswith("::index") and len(x[2]) == 2:
+            r = T.strip(x[2][1])
+            if r[0] == "agg" and (r[2] or "").endswith("ops::Range") and len(r[4]) == 2:
+                lo, hi = T.fold_int(r[4][0]), T.fold_int(r[4][1])
+                if lo is not None and hi is not None and 0 <= hi - lo <= 64:
+                    # a constant sub-slice `p[a..b]` copied as a whole reads bytes a .. b-1 in order
+                    out.extend(("abs", k) for k in range(lo, hi))
+                    return
         if x[0] in ("call",):
             for a in x[2]:
                 rec(a)
@@ -330,57 +338,121 @@ def rule_layout(ctx):
 
 
 def _decode_signature(P, b):
-    """what a link/IP decoding helper looks at: the integer constants it compares or indexes with and the byte-order
-    conversions it applies (insensitive to statement order, locals, logging)"""
-    consts = set()
-    convs = []
+    """what a link/IP decoding helper looks at, independent of how it is spelled: the byte offsets it reads (indexing, slice patterns,
+    `get`, `first`, constant sub-slices expanded to their bytes), the constants it compares values with or switches on, the masks and
+    shifts it applies, and the byte orders it converts from.  Insensitive to statement order, locals, logging, to whether sixteen
+    bytes are read one by one or copied as `p[8..24]`, and to how often a conversion is written."""
+    reads, tests, arith, orders = set(), set(), set(), set()
+
+    def cint(o, depth=0):
+        if "k" in o:
+            v = T.const_value(o["k"])
+            if isinstance(v[1], int) and not isinstance(v[1], bool):
+                return v[1]
+            return None
+        pl = o.get("c") or o.get("m")
+        if pl is not None and not pl["pr"] and depth < 3 and pl["l"] > b.arg_count:
+            return local_const(pl["l"], depth + 1)       # a constant held in a temporary (`_t = const 4; Ge(len, _t)`)
+        return None
+
+    def local_const(l, depth=0):
+        ds = [s for _, _, s in b.iter_stmts() if s["k"] == "assign" and s["p"]["l"] == l and not s["p"]["pr"]]
+        if len(ds) == 1 and ds[0]["r"]["k"] == "use":
+            return cint(ds[0]["r"]["o"], depth)
+        return None
+
+    def is_len(o):
+        pl = o.get("c") or o.get("m")
+        if pl is None or pl["pr"]:
+            return False
+        for _, _, s_ in b.iter_stmts():
+            if s_["k"] == "assign" and s_["p"]["l"] == pl["l"] and not s_["p"]["pr"]:
+                r_ = s_["r"]
+                if r_["k"] == "unop" and r_.get("op") == "PtrMetadata":
+                    return True
+                if r_["k"] == "use":
+                    return is_len(r_["o"])
+        for blk_ in b.blocks:
+            t_ = blk_["t"]
+            if t_["k"] == "call" and t_["dest"]["l"] == pl["l"] and callee_of(t_).endswith("::len"):
+                return True
+        return False
+
+    def place_reads(pl):
+        for x in pl.get("pr", []):
+            if isinstance(x, dict) and "ci" in x and not x.get("from_end"):
+                reads.add(x["ci"])
+            if isinstance(x, dict) and "i" in x:
+                k = local_const(x["i"])
+                if k is not None:
+                    reads.add(k)
+            if isinstance(x, dict) and "sub" in x:
+                reads.add(x["sub"][0])       # `[.., rest @ ..]`: the rest starts at that offset, as `&p[k..]` does
     for i, j, s in b.iter_stmts():
         if s["k"] != "assign":
             continue
         r = s["r"]
-        ops = []
-        if r["k"] in ("binop", "checked_binop"):
-            ops = [r["a"], r["b"]]
-        elif r["k"] == "use":
-            ops = [r["o"]]
-        elif r["k"] == "agg":
-            ops = r["ops"]
-        for o in ops:
-            if "k" in o:
-                v = T.const_value(o["k"])
-                if isinstance(v[1], int) and not isinstance(v[1], bool):
-                    consts.add(v[1])
-        # constant indices / sub-slices
-        def proj_consts(pl):
-            for x in pl.get("pr", []):
-                if isinstance(x, dict) and "ci" in x:
-                    consts.add(x["ci"])
-        if r["k"] == "use":
-            pl = r["o"].get("c") or r["o"].get("m")
-            if pl:
-                proj_consts(pl)
-        if r["k"] == "ref":
-            proj_consts(r["p"])
+        place_reads(s["p"])
+        for key in ("o", "a", "b"):
+            o = r.get(key)
+            if isinstance(o, dict):
+                pl = o.get("c") or o.get("m")
+                if pl:
+                    place_reads(pl)
+        if isinstance(r.get("p"), dict):
+            place_reads(r["p"])
+        if r["k"] == "binop":
+            op = r["op"].replace("WithOverflow", "").replace("Unchecked", "")
+            ks = [k for k in (cint(r["a"]), cint(r["b"])) if k is not None]
+            if op in ("Eq", "Ne", "Lt", "Le", "Gt", "Ge"):
+                # comparisons with a length are guards / bounds checks, implied by the bytes read: only values compared with data count
+                if not any(is_len(o_) for o_ in (r["a"], r["b"])):
+                    tests.update(ks)
+            elif op in ("BitAnd", "BitOr", "Shr", "Shl", "Mul"):
+                arith.update((op, k) for k in ks)
     for blk in b.blocks:
         tt = blk["t"]
         if tt["k"] == "switch" and tt.get("ty") not in ("bool", "isize"):
             for (v, _tgt) in tt.get("arms", []):
                 if isinstance(v, int):
-                    consts.add(v)
+                    tests.add(v)
+    S = T.Slicer(b, P)
     for blk, t in b.calls():
         n = callee_of(t)
         if Q.in_tracing(t["span"]):
             continue
-        if n.endswith(("from_be_bytes", "from_le_bytes", "from_ne_bytes", "to_be", "to_le", "swap_bytes", "from_be", "from_le")):
-            convs.append(n.rsplit("::", 1)[-1])
+        last = n.rsplit("::", 1)[-1]
+        if last in ("from_be_bytes", "to_be", "from_be", "to_be_bytes"):
+            orders.add("be")
+        elif last in ("from_le_bytes", "to_le", "from_le", "to_le_bytes", "swap_bytes"):
+            orders.add("le")
+        elif last in ("from_ne_bytes", "to_ne_bytes"):
+            orders.add("ne")
+        elif ("Ipv6Addr" in n or "Ipv4Addr" in n) and last == "from":
+            orders.add("be")      # address from octets: network order by definition
         if n.endswith(("[T]>::first", "slice::<impl [T]>::first")):
-            consts.add(0)          # `s.first()` examines byte 0 just as `s[0]` does
-        for a in t["args"]:
-            if "k" in a:
-                v = T.const_value(a["k"])
-                if isinstance(v[1], int) and not isinstance(v[1], bool):
-                    consts.add(v[1])
-    return (tuple(sorted(consts)), tuple(sorted(convs)))
+            reads.add(0)
+        if last == "get" and ("[T]" in n or "slice" in n) and len(t["args"]) == 2:
+            k = cint(t["args"][1])
+            if k is None:
+                pl = t["args"][1].get("c") or t["args"][1].get("m")
+                k = local_const(pl["l"]) if pl and not pl["pr"] else None
+            if k is not None:
+                reads.add(k)
+        if last in ("index", "get") and len(t["args"]) == 2:
+            a = Q.call_args(b, S, blk, t)
+            r = T.strip(a[1])
+            if r[0] == "agg" and r[1] == "adt" and (r[2] or "").rsplit("::", 1)[-1] in ("Range", "RangeInclusive", "RangeFrom", "RangeTo"):
+                ks = [T.fold_int(x) for x in r[4]]
+                if (r[2] or "").endswith("ops::Range") and len(ks) == 2 and None not in ks and 0 <= ks[1] - ks[0] <= 64:
+                    reads.update(range(ks[0], ks[1]))
+                else:
+                    reads.update(k for k in ks if k is not None)
+        for a_ in t["args"]:
+            k = cint(a_)
+            if k is not None and last in ("saturating_add", "saturating_mul", "checked_add", "checked_mul", "wrapping_add", "saturating_sub"):
+                arith.add((last.split("_")[-1], k))
+    return (tuple(sorted(reads)), tuple(sorted(tests)), tuple(sorted(arith, key=str)), tuple(sorted(orders)))
 
 
 def rule_siblings(ctx):
@@ -407,15 +479,18 @@ def rule_siblings(ctx):
         for fam, sg in sigs.items():
             groups.setdefault(sg, []).append(fam)
         if len(groups) == 1:
-            ctx.ok("R9", "raw_filter::%s:agree" % fn, "%d copies examine the same constants %s with conversions %s" % (len(sigs), list(list(groups)[0][0])[:12], list(list(groups)[0][1])), ctx.loc(bodies[sorted(bodies)[0]]))
+            g0 = list(groups)[0]
+            ctx.ok("R9", "raw_filter::%s:agree" % fn, "%d copies read bytes %s, test %s, byte order %s" % (len(sigs), list(g0[0])[:12], list(g0[1])[:8], list(g0[3])), ctx.loc(bodies[sorted(bodies)[0]]))
             continue
         # the odd one out is the copy that differs from the majority
         major = max(groups.items(), key=lambda kv: len(kv[1]))
         for sg, fs in groups.items():
             if sg is major[0]:
                 continue
-            dc = sorted(set(sg[0]) ^ set(major[0][0]))
-            dv = (list(sg[1]), list(major[0][1]))
+            dc = {"bytes read": sorted(set(sg[0]) ^ set(major[0][0])), "values tested": sorted(set(sg[1]) ^ set(major[0][1])),
+                  "masks/shifts/steps": sorted(set(sg[2]) ^ set(major[0][2]), key=str)}
+            dc = {k_: v_ for k_, v_ in dc.items() if v_}
+            dv = (list(sg[3]), list(major[0][3]))
             for fam in fs:
                 ctx.fail("R9", "raw_filter::%s:agree:%s" % (fn, fam),
                          "the %s copy of raw_filter::%s decodes differently from the %s cop%s: constants differing %s, byte-order conversions %s vs %s - the same frame is "
